@@ -63,8 +63,7 @@ def _target(world, flavour, name):
 def run_one(tape, opts):
     out = Outcome()
     top = gen_top(tape)
-    # (TestByTestResult needs startTest for its start time: the startTest-less pair is outside its contract)
-    hist = pl.gen_history(tape, skip_pair=(top[0] != "TestByTestResult"), extras=False, times=False, test_kinds=("testcase", "placeholder"),
+    hist = pl.gen_history(tape, skip_pair=True, extras=False, times=False, test_kinds=("testcase", "placeholder"),
                           max_tests=9 if opts.get("tier") == "thorough" else 5)
     clock = vclock.VClock()
     vclock.install(clock)
